@@ -17,7 +17,26 @@ Fixpoint rows_eqb (a b : list (string * string * string * string)) : bool :=
   | _, _ => false
   end.
 
-Definition inventory_check : bool := rows_eqb Inventory.inventory InventoryExpected.expected_inventory.
+(* every site of the regenerated inventory is one of the reviewed ones, counted with multiplicity and
+   compared by what the site IS (kind, package, asserted type / callee / variable; a map iteration by
+   its function): sites may move inside their package, merge or disappear - a harmless refactoring -
+   but none may appear *)
+Definition key_eqb (a b : string * string * string) : bool :=
+  let '(a1, a2, a3) := a in let '(b1, b2, b3) := b in String.eqb a1 b1 && String.eqb a2 b2 && String.eqb a3 b3.
+
+Fixpoint remove_one (k : string * string * string) (l : list (string * string * string)) : option (list (string * string * string)) :=
+  match l with
+  | [] => None
+  | x :: r => if key_eqb k x then Some r else match remove_one k r with Some r' => Some (x :: r') | None => None end
+  end.
+
+Fixpoint sub_multiset (cur reviewed : list (string * string * string)) : bool :=
+  match cur with
+  | [] => true
+  | k :: r => match remove_one k reviewed with Some rest => sub_multiset r rest | None => false end
+  end.
+
+Definition inventory_check : bool := sub_multiset Inventory.inventory_keys InventoryExpected.expected_keys.
 
 Lemma inventory_check_ok : inventory_check = true.
 Proof. vm_compute. reflexivity. Qed.
